@@ -10,7 +10,7 @@ deciding check: end-to-end, real vs real, no model: parse -> format -> reparse /
                 normalised ASTs / compare bytecode / compare comment sequences, on grammar-generated
                 sources + std/*.qv + every parsing source string of quiver-tests/tests/*.rs.
                 Each failure is an impl-violation (source = replay, shrunk), unless its *input signature*
-                matches a known finding (F15..F19, F30..F47) whose status in known_findings.json is "known"."""
+                matches a known finding (F15..F19, F30..F44, F60..F63) whose status in known_findings.json is "known"."""
 import glob, hashlib, os, re
 from vplib import sexpr
 from vplib.common import REPO, VERIF
@@ -29,7 +29,7 @@ MANIFEST = dict(
          "real-vs-real metamorphic search over grammar-generated sources, std/*.qv and the test-suite sources.",
     design_ref="§5 C17",
     note="Trusted: Coq kernel, extraction (ExtrOcamlBasic), OCaml driver, Rust harness (incl. its own interpolation-aware comment scanner), "
-         "generators. Known findings F15-F19, F30-F47 (real formatter defects) are matched narrowly by input signature.",
+         "generators. Known findings F15-F19, F30-F44, F60-F63 (real formatter defects) are matched narrowly by input signature.",
     technique="Coq proof of the simplifier / string codec / layout models + model-code correspondence by differential execution + end-to-end metamorphic testing of the real formatter",
 )
 
@@ -55,11 +55,11 @@ KNOWN = {
     "F40": ("primitive-named-identifier", {"ast", "bc"}),   # `(<'int>)c`: a type-parameter pattern loses its angle brackets -> `('int)c` (primitive, not the parameter)
     "F41": ("toplevel-type-binding", {"reparse", "ast", "bc"}),  # a statement `'d<'t> = <chain>` (type pattern binding) is re-read as a type alias
     "F43": ("name-then-paren", {"reparse"}),               # `.. Name , (pat) = ..` (also `=Name`, or a type alias ending in a bare name): the comma becomes a newline and `Name\n(` no longer parses (tuple_name refuses a following `(` across whitespace)
-    "F44": ("out-comment-before-continuation", {"reparse"}),             # a deferred trailing comment (e.g. of a guard, or one written inside a pattern) is flushed at the first line break, which can be a `~>` continuation line: output does not re-parse (signature read off the OUTPUT: a comment ends a line whose successor starts with `~>`)
-    "F45": ("select-then-tuple", {"ast", "bc"} | IK),       # `x ! ~> [a]` is rendered `x ! [a]` = the general select form with sources
-    "F46": ("bodyless-fn-then-block", {"ast", "bc"} | IK),  # `#'int ~> { .. }` / `.. #'int, { .. } ..` is rendered `#'int { .. }` / `#'int\n{ .. }` = a function WITH that body
-    "F48": ("empty-select-sources", {"idem:layout"}),       # an over-long chain breaks inside the empty source list of `! []` and emits a blank line there, which the 2nd format re-attaches
-    "F47": ("multi-hole-trivia", {"reparse"} | CK | IK),    # chains inside a hole of a """ string carry offsets relative to the hole: comments/blank lines of the file are attached to them (printed inside the hole)
+    "F44": ("out-comment-before-continuation", {"reparse"} | CK),             # a deferred trailing comment (e.g. of a guard, or one written inside a pattern) is flushed at the first line break, which can be a `~>` continuation line: output does not re-parse (signature read off the OUTPUT: a comment ends a line whose successor starts with `~>`)
+    "F60": ("select-then-tuple", {"ast", "bc"} | IK),       # `x ! ~> [a]` is rendered `x ! [a]` = the general select form with sources
+    "F61": ("bodyless-fn-then-block", {"ast", "bc"} | IK),  # `#'int ~> { .. }` / `.. #'int, { .. } ..` is rendered `#'int { .. }` / `#'int\n{ .. }` = a function WITH that body
+    "F63": ("empty-select-sources", {"idem:layout"}),       # an over-long chain breaks inside the empty source list of `! []` and emits a blank line there, which the 2nd format re-attaches
+    "F62": ("multi-hole-trivia", {"reparse"} | CK | IK),    # chains inside a hole of a """ string carry offsets relative to the hole: comments/blank lines of the file are attached to them (printed inside the hole)
 }
 
 
